@@ -7,6 +7,7 @@ import c06
 import c10
 import c13
 
+WITNESSES = ['W5InternalsUnreachable']
 LEVEL = "other"
 EXPLANATION = ("Nothing can remove a store entry except three guarded mechanisms: the closed set of functions that "
                "remove/clear store entries is reachable only from the command worker (explicit Delete and eviction), "
